@@ -3,28 +3,28 @@ CONSTANTS
   AckMode = "shaped"
   ThrMode = "fixed"
   EmptyMode = "fixed"
-  CfgSet <- CloseCfgs
+  CfgSet <- BindCfgs
   SameCfg = TRUE
-  Openers = {"A"}
+  Openers = {"A", "B"}
   MaxOpens = 1
-  Ids = {1}
+  Ids = {1, 2}
   Hosts = {"h0"}
-  MaxWrites = 2
+  MaxWrites = 1
   Lens = {1}
   ReadMax = {4}
-  Closers = {"A"}
+  Closers = {}
   MuxDroppers = {}
-  Cancellers = {}
+  Cancellers = {"A"}
   DgSenders = {}
   MaxDgrams = 0
-  Binders = {}
-  MaxBinds = 0
+  Binders = {"A"}
+  MaxBinds = 1
   Faults = {}
   AdvMsgs = {}
   MaxAdv = 0
-  Bridgers = {"A", "B"}
-  MaxHandles = 1
-  MaxCtr = 1
+  Bridgers = {}
+  MaxHandles = 2
+  MaxCtr = 3
 VIEW View
 CONSTRAINT Bound
 INVARIANTS NoViolation TypeOK AckSound QueueBound InitialCredit ExactlyOne TargetCarried BoundedRetry Released DoneResolved
